@@ -110,6 +110,10 @@ impl Proc {
         if let Ok(tz) = std::env::var("TZ") {
             cmd.env("TZ", tz);
         }
+        // a home directory of its own (inside the scratch area), as a service account has
+        let home = crate::scratch::base().join("home");
+        let _ = std::fs::create_dir_all(&home);
+        cmd.env("HOME", &home);
         for (k, v) in env {
             cmd.env(k, v);
         }
